@@ -35,7 +35,8 @@ def evaluate(module, exprs, env=None):
     with open(path, "w") as f:
         f.write(body)
     try:
-        r = tlc.run(name, cfg_text="INIT Init_\nNEXT Next_\n", env=env)
+        consts = os.environ.get("EVAL_CONSTANTS", "")
+        r = tlc.run(name, cfg_text="INIT Init_\nNEXT Next_\n" + ("CONSTANTS " + consts + "\n" if consts else ""), env=env)
     finally:
         os.unlink(path)
     vals = r.tagged("EVAL")
@@ -45,6 +46,7 @@ def evaluate(module, exprs, env=None):
 
 
 if __name__ == "__main__":
-    env = {"URL_DATA": os.path.join(tlc.SPEC_DIR, "data", "urlgen.json")}
+    d = os.path.join(tlc.SPEC_DIR, "data")
+    env = {"URL_DATA": d + "/urlgen.json", "BASES_DATA": d + "/bases.json", "NORM_DATA": d + "/normdata.json", "C05_URLS": d + "/c05urls.json"}
     for v in evaluate(sys.argv[1], sys.argv[2:], env):
         print(show(v))
